@@ -4,6 +4,11 @@
 // maps — as constants (evaluated from the source expressions) plus the structural facts the ring model
 // (Model/UtxoUndo.lean, `Ring`) was written for. Props.C10.loader_ring_safe is proved about these constants: an edit of
 // the expressions that lets the reader lap the consumer breaks the proof even when no run hits the schedule.
+// Second group (`retryShape`): what the function does with the variables that live across `goto redo` (the index inside
+// the pack, the buffer number, db.dataSize, the 256 maps) on the way from a failed record loop to the record loop of the
+// retry with UTXO.old — the parameters of Model/UtxoLoad.lean; Props.C10.load_fallback_exact needs the clean-up.
+// Variables are found by their ROLE in the record loop (what is sent on the channel, what indexes it, what it is
+// re-derived from), not by their names.
 package main
 
 import (
@@ -76,6 +81,40 @@ func eval(e ast.Expr, env map[string]int64) (int64, error) {
 	}
 }
 
+// has reports whether a node satisfying f occurs below n
+func has(n ast.Node, f func(ast.Node) bool) bool {
+	found := false
+	if n == nil {
+		return false
+	}
+	ast.Inspect(n, func(m ast.Node) bool {
+		if m != nil && f(m) {
+			found = true
+		}
+		return !found
+	})
+	return found
+}
+
+func ident(e ast.Expr) string {
+	if id, ok := e.(*ast.Ident); ok {
+		return id.Name
+	}
+	return ""
+}
+
+func unlabel(s ast.Stmt) (ast.Stmt, string) {
+	if l, ok := s.(*ast.LabeledStmt); ok {
+		return l.Stmt, l.Label.Name
+	}
+	return s, ""
+}
+
+func isZero(e ast.Expr) bool {
+	v, err := vtrans.IntLit(e)
+	return err == nil && v == 0
+}
+
 func main() {
 	f, err := vtrans.Parse("lib/utxo/unspent_db.go")
 	if err != nil {
@@ -84,6 +123,62 @@ func main() {
 	fd, err := f.Func("", "NewUnspentDb")
 	if err != nil {
 		die(err)
+	}
+	// ---- the record loop and the roles of the variables in it
+	top := fd.Body.List
+	iLoop, iRedo, iFatal, iRetry := -1, -1, -1, -1
+	redoLabel, fatalLabel := "", ""
+	var loop *ast.ForStmt
+	for i, st := range top {
+		inner, _ := unlabel(st)
+		if fs, ok := inner.(*ast.ForStmt); ok && loop == nil && has(fs.Body, func(n ast.Node) bool {
+			c, ok := n.(*ast.CallExpr)
+			if !ok {
+				return false
+			}
+			s, ok := c.Fun.(*ast.SelectorExpr)
+			return ok && s.Sel.Name == "ReadVLen"
+		}) {
+			loop, iLoop = fs, i
+		}
+	}
+	if loop == nil {
+		die(fmt.Errorf("NewUnspentDb: the record loop (a top-level for statement calling ReadVLen) was not found"))
+	}
+	chName, recsName, recIdxName, poolName, poolIdxName, sizeField := "", "", "", "", "", ""
+	ast.Inspect(loop.Body, func(n ast.Node) bool {
+		if s, ok := n.(*ast.SendStmt); ok && ident(s.Chan) != "" && ident(s.Value) != "" && recsName == "" {
+			chName, recsName = ident(s.Chan), ident(s.Value)
+		}
+		return true
+	})
+	ast.Inspect(loop.Body, func(n ast.Node) bool {
+		switch x := n.(type) {
+		case *ast.IndexExpr:
+			if ident(x.X) == recsName && ident(x.Index) != "" && recIdxName == "" {
+				recIdxName = ident(x.Index)
+			}
+		case *ast.AssignStmt:
+			if len(x.Lhs) == 1 && len(x.Rhs) == 1 && ident(x.Lhs[0]) == recsName {
+				if sl, ok := x.Rhs[0].(*ast.SliceExpr); ok && sl.Low == nil && sl.High == nil {
+					if ix, ok := sl.X.(*ast.IndexExpr); ok && ident(ix.X) != "" && ident(ix.Index) != "" {
+						poolName, poolIdxName = ident(ix.X), ident(ix.Index)
+					}
+				}
+			}
+		case *ast.CallExpr:
+			// db.<field>.Add(int64(le))
+			if s, ok := x.Fun.(*ast.SelectorExpr); ok && s.Sel.Name == "Add" {
+				if s2, ok := s.X.(*ast.SelectorExpr); ok && ident(s2.X) == "db" && sizeField == "" {
+					sizeField = s2.Sel.Name
+				}
+			}
+		}
+		return true
+	})
+	if chName == "" || recsName == "" || recIdxName == "" || poolName == "" || poolIdxName == "" || sizeField == "" {
+		die(fmt.Errorf("NewUnspentDb: record loop not understood (channel %q, pack %q, index in pack %q, buffers %q, buffer number %q, size counter %q)",
+			chName, recsName, recIdxName, poolName, poolIdxName, sizeField))
 	}
 	env := map[string]int64{}
 	exprs := map[string]string{}
@@ -111,7 +206,7 @@ func main() {
 						}
 					}
 				}
-				if x.Tok == token.VAR && len(vs.Names) == 1 && vs.Names[0].Name == "recpool" {
+				if x.Tok == token.VAR && len(vs.Names) == 1 && vs.Names[0].Name == poolName {
 					t := vs.Type
 					for {
 						at, ok := t.(*ast.ArrayType)
@@ -125,41 +220,33 @@ func main() {
 			}
 		case *ast.AssignStmt:
 			if len(x.Lhs) == 1 && len(x.Rhs) == 1 {
-				l := key(x.Lhs[0])
-				if l == "ch" {
+				if key(x.Lhs[0]) == chName {
 					if c, ok := x.Rhs[0].(*ast.CallExpr); ok && key(c.Fun) == "make" && len(c.Args) == 2 {
 						if _, isChan := c.Args[0].(*ast.ChanType); isChan {
 							chanCap = key(c.Args[1])
 						}
 					}
 				}
-				if l == "pool_idx" {
-					rotation = key(x.Rhs[0])
-				}
-			}
-		case *ast.IfStmt:
-			// `if rec_idx == len(recs)-1 { ch <- recs; rec_idx = 0; pool_idx = (pool_idx+1) % BUFFERS_CNT; recs = recpool[pool_idx][:] }`
-			sent := false
-			for _, st := range x.Body.List {
-				if s, ok := st.(*ast.SendStmt); ok && key(s.Chan) == "ch" && key(s.Value) == "recs" {
-					sent = true
-				}
-				if as, ok := st.(*ast.AssignStmt); ok && len(as.Lhs) == 1 && key(as.Lhs[0]) == "pool_idx" && sent {
-					sendThenRotate = true
-				}
 			}
 		case *ast.GoStmt:
-			// the consumer: a goroutine whose body receives from ch and ranges over what it received
+			// the consumer: a goroutine whose body receives a pack from the channel and ranges over what it received
 			fl, ok := x.Call.Fun.(*ast.FuncLit)
 			if !ok {
 				return true
 			}
 			receives, walks := false, false
+			got := ""
 			ast.Inspect(fl.Body, func(m ast.Node) bool {
-				if u, ok := m.(*ast.UnaryExpr); ok && u.Op == token.ARROW && key(u.X) == "ch" {
-					receives = true
+				if as, ok := m.(*ast.AssignStmt); ok && len(as.Lhs) == 1 && len(as.Rhs) == 1 {
+					if u, ok := as.Rhs[0].(*ast.UnaryExpr); ok && u.Op == token.ARROW && key(u.X) == chName {
+						receives = true
+						got = ident(as.Lhs[0])
+					}
 				}
-				if rs, ok := m.(*ast.RangeStmt); ok && key(rs.X) == "recs" {
+				return true
+			})
+			ast.Inspect(fl.Body, func(m ast.Node) bool {
+				if rs, ok := m.(*ast.RangeStmt); ok && got != "" && ident(rs.X) == got {
 					walks = true
 				}
 				return true
@@ -171,41 +258,223 @@ func main() {
 		}
 		return true
 	})
+	// `if rec_idx == len(recs)-1 { ch <- recs; rec_idx = 0; pool_idx = (pool_idx+1) % BUFFERS_CNT; recs = recpool[pool_idx][:] }`
+	fullTest := ""
+	ast.Inspect(loop.Body, func(n ast.Node) bool {
+		x, ok := n.(*ast.IfStmt)
+		if !ok {
+			return true
+		}
+		sent, rewound := false, false
+		for _, st := range x.Body.List {
+			if s, ok := st.(*ast.SendStmt); ok && key(s.Chan) == chName && key(s.Value) == recsName {
+				sent = true
+			}
+			if as, ok := st.(*ast.AssignStmt); ok && len(as.Lhs) == 1 && len(as.Rhs) == 1 {
+				if key(as.Lhs[0]) == poolIdxName && sent {
+					sendThenRotate = true
+					rotation = key(as.Rhs[0])
+				}
+				if key(as.Lhs[0]) == recIdxName && sent && isZero(as.Rhs[0]) {
+					rewound = true
+				}
+			}
+		}
+		if sent && rewound {
+			fullTest = key(x.Cond)
+		}
+		return true
+	})
 	for _, c := range []string{"BUFFERS_CNT", "CHANNEL_SIZE", "RECS_PACK_SIZE"} {
 		if _, ok := env[c]; !ok {
 			die(fmt.Errorf("NewUnspentDb: constant %s not found (or its expression is not understood)", c))
 		}
 	}
 	if len(recpoolDims) != 2 || recpoolDims[0] != "BUFFERS_CNT" || recpoolDims[1] != "RECS_PACK_SIZE" {
-		die(fmt.Errorf("NewUnspentDb: `var recpool [BUFFERS_CNT][RECS_PACK_SIZE]one_rec` not found (dims %v)", recpoolDims))
+		die(fmt.Errorf("NewUnspentDb: `var %s [BUFFERS_CNT][RECS_PACK_SIZE]one_rec` not found (dims %v)", poolName, recpoolDims))
 	}
 	if chanCap != "CHANNEL_SIZE" {
-		die(fmt.Errorf("NewUnspentDb: `ch = make(chan []one_rec, CHANNEL_SIZE)` not found (capacity %q)", chanCap))
+		die(fmt.Errorf("NewUnspentDb: `%s = make(chan []one_rec, CHANNEL_SIZE)` not found (capacity %q)", chName, chanCap))
 	}
-	if strings.ReplaceAll(rotation, " ", "") != "(pool_idx+1)%BUFFERS_CNT" {
-		die(fmt.Errorf("NewUnspentDb: buffer rotation is %q, not (pool_idx+1)%%BUFFERS_CNT", rotation))
+	if rotation != "("+poolIdxName+"+1)%BUFFERS_CNT" {
+		die(fmt.Errorf("NewUnspentDb: buffer rotation is %q, not (%s+1)%%BUFFERS_CNT", rotation, poolIdxName))
 	}
 	if !sendThenRotate {
-		die(fmt.Errorf("NewUnspentDb: the reader does not `ch <- recs` before turning to the next buffer"))
+		die(fmt.Errorf("NewUnspentDb: the reader does not `%s <- %s` before turning to the next buffer", chName, recsName))
+	}
+	if fullTest != recIdxName+"==len("+recsName+")-1" && fullTest != "len("+recsName+")-1=="+recIdxName {
+		die(fmt.Errorf("NewUnspentDb: a pack is sent (and the index in the pack rewound) under the test %q, not %s == len(%s)-1", fullTest, recIdxName, recsName))
 	}
 	if consumers != 1 || !consumerWalksPack {
-		die(fmt.Errorf("NewUnspentDb: expected exactly one goroutine that receives a pack from ch and ranges over it (found %d)", consumers))
+		die(fmt.Errorf("NewUnspentDb: expected exactly one goroutine that receives a pack from %s and ranges over it (found %d)", chName, consumers))
 	}
 	if env["BUFFERS_CNT"] <= 0 || env["CHANNEL_SIZE"] < 0 || env["RECS_PACK_SIZE"] <= 0 {
 		die(fmt.Errorf("NewUnspentDb: non-positive loader geometry %v", env))
 	}
+
+	// ---- the retry: labels, and what happens to the surviving variables between a failed record loop and the next one
+	isGoto := func(n ast.Node, label string) bool {
+		b, ok := n.(*ast.BranchStmt)
+		return ok && b.Tok == token.GOTO && b.Label != nil && (label == "" || b.Label.Name == label)
+	}
+	// the label the record loop jumps to on a read error
+	ast.Inspect(loop.Body, func(n ast.Node) bool {
+		if b, ok := n.(*ast.BranchStmt); ok && b.Tok == token.GOTO && b.Label != nil && fatalLabel == "" {
+			fatalLabel = b.Label.Name
+		}
+		return true
+	})
+	for i, st := range top {
+		_, lb := unlabel(st)
+		if lb != "" && lb == fatalLabel {
+			iFatal = i
+		}
+	}
+	if iFatal < iLoop || iFatal < 0 {
+		die(fmt.Errorf("NewUnspentDb: the error label of the record loop (%q) is not a top-level statement after the loop", fatalLabel))
+	}
+	// the statement after it that jumps back: `if fname != "UTXO.old" { fname = "UTXO.old"; goto redo }`
+	for i := iFatal; i < len(top) && iRetry < 0; i++ {
+		inner, _ := unlabel(top[i])
+		if is, ok := inner.(*ast.IfStmt); ok && has(is.Body, func(n ast.Node) bool { return isGoto(n, "") }) {
+			iRetry = i
+			ast.Inspect(is.Body, func(n ast.Node) bool {
+				if b, ok := n.(*ast.BranchStmt); ok && b.Tok == token.GOTO && b.Label != nil {
+					redoLabel = b.Label.Name
+				}
+				return true
+			})
+			// retried once, with the other file name: the guard compares a variable with the string the body stores in it
+			guardOK := false
+			if be, ok := is.Cond.(*ast.BinaryExpr); ok && be.Op == token.NEQ && ident(be.X) != "" {
+				for _, st := range is.Body.List {
+					if as, ok := st.(*ast.AssignStmt); ok && len(as.Lhs) == 1 && len(as.Rhs) == 1 && ident(as.Lhs[0]) == ident(be.X) && key(as.Rhs[0]) == key(be.Y) && key(be.Y) == `"UTXO.old"` {
+						guardOK = true
+					}
+				}
+			}
+			if !guardOK {
+				die(fmt.Errorf("NewUnspentDb: the retry is not guarded by `if <name> != \"UTXO.old\" { <name> = \"UTXO.old\"; goto … }` (found `%s`)", key(is.Cond)))
+			}
+		}
+	}
+	for i, st := range top {
+		_, lb := unlabel(st)
+		if lb != "" && lb == redoLabel {
+			iRedo = i
+		}
+	}
+	if iRetry < 0 || iRedo < 0 || iRedo > iLoop {
+		die(fmt.Errorf("NewUnspentDb: retry shape not understood (error label %q at %d, retry at %d, start label %q at %d, loop at %d)", fatalLabel, iFatal, iRetry, redoLabel, iRedo, iLoop))
+	}
+	// statements certainly executed on the way: top level of [fatal .. retry] (+ the retry body before its goto) and of
+	// [redo .. loop), plus the bodies of `if <ch> != nil { … }` (the channel exists whenever the record loop has run)
+	var way []ast.Stmt
+	var collect func(list []ast.Stmt)
+	collect = func(list []ast.Stmt) {
+		for _, st := range list {
+			inner, _ := unlabel(st)
+			if isGoto(inner, redoLabel) {
+				return
+			}
+			way = append(way, inner)
+			if is, ok := inner.(*ast.IfStmt); ok && is.Init == nil && key(is.Cond) == chName+"!=nil" {
+				collect(is.Body.List)
+			}
+		}
+	}
+	collect(top[iFatal:iRetry])
+	if inner, _ := unlabel(top[iRetry]); true {
+		collect(inner.(*ast.IfStmt).Body.List)
+	}
+	nErr := len(way)
+	collect(top[iRedo:iLoop])
+	// the record counter: the field that gets the header's count, `db.<field>.Store(int64(u64))`, at the start of an attempt
+	countField := ""
+	for _, st := range way[nErr:] {
+		if es, ok := st.(*ast.ExprStmt); ok {
+			if c, ok := es.X.(*ast.CallExpr); ok && len(c.Args) == 1 && !isZero(c.Args[0]) {
+				if s, ok := c.Fun.(*ast.SelectorExpr); ok && s.Sel.Name == "Store" {
+					if s2, ok := s.X.(*ast.SelectorExpr); ok && ident(s2.X) == "db" && s2.Sel.Name != sizeField {
+						countField = s2.Sel.Name
+					}
+				}
+			}
+		}
+	}
+	if countField == "" {
+		die(fmt.Errorf("NewUnspentDb: no `db.<counter>.Store(<header count>)` at the start of an attempt"))
+	}
+	rewindRec, rewindPool, resetSize, resetCount, freshMaps, recsDerived, chMade := false, false, false, false, false, false, false
+	for i, st := range way {
+		switch x := st.(type) {
+		case *ast.AssignStmt:
+			if len(x.Lhs) == len(x.Rhs) && x.Tok == token.ASSIGN {
+				// `a, b = 0, 0` assigns pairwise (the right-hand sides here are constants or do not read a or b)
+				for j := range x.Lhs {
+					lhs, rhs := x.Lhs[j], x.Rhs[j]
+					switch {
+					case ident(lhs) == recIdxName && isZero(rhs):
+						rewindRec = true
+					case ident(lhs) == poolIdxName && isZero(rhs):
+						rewindPool = true
+						recsDerived = false // the pack variable must be derived again after this
+					case ident(lhs) == recIdxName || ident(lhs) == poolIdxName:
+						die(fmt.Errorf("NewUnspentDb: `%s` between a failed attempt and the retry is not understood", key(x)))
+					case ident(lhs) == recsName && i >= nErr:
+						recsDerived = key(rhs) == poolName+"["+poolIdxName+"][:]"
+					case ident(lhs) == chName && i >= nErr:
+						chMade = true
+					}
+				}
+			}
+		case *ast.ExprStmt:
+			if c, ok := x.X.(*ast.CallExpr); ok && key(c.Fun) == "db."+sizeField+".Store" && len(c.Args) == 1 && isZero(c.Args[0]) {
+				resetSize = true
+			}
+			if c, ok := x.X.(*ast.CallExpr); ok && key(c.Fun) == "db."+countField+".Store" && len(c.Args) == 1 && isZero(c.Args[0]) {
+				resetCount = true
+			}
+		case *ast.RangeStmt:
+			if i >= nErr && key(x.X) == "db.HashMap" && has(x.Body, func(n ast.Node) bool {
+				as, ok := n.(*ast.AssignStmt)
+				if !ok || len(as.Lhs) != 1 || len(as.Rhs) != 1 {
+					return false
+				}
+				ix, ok := as.Lhs[0].(*ast.IndexExpr)
+				c, ok2 := as.Rhs[0].(*ast.CallExpr)
+				return ok && ok2 && key(ix.X) == "db.HashMap" && key(c.Fun) == "make"
+			}) {
+				freshMaps = true
+			}
+		}
+	}
+	if !recsDerived || !chMade {
+		die(fmt.Errorf("NewUnspentDb: every attempt must make its channel and derive `%s = %s[%s][:]` before the record loop (derived %v, channel %v)", recsName, poolName, poolIdxName, recsDerived, chMade))
+	}
+	lb := func(b bool) string {
+		if b {
+			return "true"
+		}
+		return "false"
+	}
 	var sb strings.Builder
 	sb.WriteString("/- GENERATED by go/cmd/gen_c10 from lib/utxo/unspent_db.go (NewUnspentDb) — do not edit; not in git. -/\n")
+	sb.WriteString("import GocoinV.Model.UtxoLoad\n")
 	sb.WriteString("namespace GocoinV.Gen.UtxoLoaderFacts\n\n")
 	fmt.Fprintf(&sb, "/-- `const BUFFERS_CNT = %s`: static pack buffers the reader rotates over -/\ndef buffersCnt : Nat := %d\n", exprs["BUFFERS_CNT"], env["BUFFERS_CNT"])
 	fmt.Fprintf(&sb, "/-- `const CHANNEL_SIZE = %s`: capacity of the channel between the reader and the map-filling goroutine -/\ndef channelSize : Nat := %d\n", exprs["CHANNEL_SIZE"], env["CHANNEL_SIZE"])
 	fmt.Fprintf(&sb, "/-- `const RECS_PACK_SIZE = %s`: records per pack -/\ndef recsPackSize : Nat := %d\n", exprs["RECS_PACK_SIZE"], env["RECS_PACK_SIZE"])
-	sb.WriteString("/-- structural facts checked by the translator: recpool is [BUFFERS_CNT][RECS_PACK_SIZE]; the channel is made with\n    capacity CHANNEL_SIZE; the reader sends a full pack and only then turns to buffer (pool_idx+1) % BUFFERS_CNT; exactly one\n    goroutine receives packs and walks each of them before receiving the next -/\ndef ringShapeChecked : Bool := true\n")
+	sb.WriteString("/-- structural facts checked by the translator: recpool is [BUFFERS_CNT][RECS_PACK_SIZE]; the channel is made with\n    capacity CHANNEL_SIZE; the reader sends a full pack (index in the pack == len-1), rewinds the index and only then turns to\n    buffer (pool_idx+1) % BUFFERS_CNT; exactly one goroutine receives packs and walks each of them before receiving the next -/\ndef ringShapeChecked : Bool := true\n")
+	fmt.Fprintf(&sb, "\n/-- the retry (`%s:` … `%s:` … `goto %s`, once, with UTXO.old): what is certainly executed between a failed record loop\n    and the record loop of the next attempt. Variables by role: index in the pack `%s`, buffer number `%s`, pack `%s` of\n    `%s`, size counter `db.%s`. Every attempt makes its channel and derives the pack from the buffer number (checked). -/\n",
+		redoLabel, fatalLabel, redoLabel, recIdxName, poolIdxName, recsName, poolName, sizeField)
+	fmt.Fprintf(&sb, "def retryShape : GocoinV.UtxoRec.RetryShape :=\n  { buffers := buffersCnt, pack := recsPackSize,\n    rewindRecIdx := %s,   -- `%s = 0`\n    rewindPoolIdx := %s,  -- `%s = 0`\n    resetDataSize := %s,  -- `db.%s.Store(0)`\n    resetTotalTxs := %s,  -- `db.%s.Store(0)`\n    freshMaps := %s }     -- `for i := range db.HashMap { db.HashMap[i] = make(…) }` after the header\n",
+		lb(rewindRec), recIdxName, lb(rewindPool), poolIdxName, lb(resetSize), sizeField, lb(resetCount), countField, lb(freshMaps))
 	sb.WriteString("\nend GocoinV.Gen.UtxoLoaderFacts\n")
 	out := vlib.Root() + "/lean/GocoinV/Gen/UtxoLoaderFacts.lean"
 	os.Remove(out)
 	if err := os.WriteFile(out, []byte(sb.String()), 0644); err != nil {
 		die(err)
 	}
-	fmt.Println("FACTS 7")
+	fmt.Println("FACTS 14")
 }
